@@ -953,6 +953,9 @@ func (m *Matcher) checkRawLen(st state, wp, rp *Prim, wfr, rfr *frame) {
 	// field before the bytes (object invariant size-field == len(bytes) assumed), or a field that is
 	// not part of this codec at all (framing carried out of band, e.g. the UDP header length)
 	if s, ok := m.X.canonF(rfr, stripConv(rfr.ctx, rp.LenArg), 0); ok && isFieldLabel(s) {
+		if alias, aliased := st.e.rfield[s]; aliased && alias == k {
+			return // the field was read from the very value the writer emitted as len(arg)
+		}
 		if _, aliased := st.e.rfield[s]; !aliased {
 			m.Res.Notes = append(m.Res.Notes, fmt.Sprintf("raw bytes %s: length taken from field %s (object invariant / out-of-band framing assumed)", m.wlabelOf(wfr, wp), s))
 			return
@@ -1077,6 +1080,14 @@ func (m *Matcher) collection(fr *frame, recvExpr ast.Expr, method *types.Func, d
 		if !ok || len(ret.Results) != 1 {
 			break
 		}
+		cc0 := m.X.Ctx(fi)
+		if fsel, ok := ast.Unparen(ret.Results[0]).(*ast.SelectorExpr); ok {
+			// func (t *T) ReadOnlyBits() []X { return t.M }
+			if rid, ok := ast.Unparen(fsel.X).(*ast.Ident); ok && cc0.Info.ObjectOf(rid) == cc0.Recv && method.Name() != "Size" && method.Name() != "Len" {
+				base += "." + fsel.Sel.Name // accessor of the backing collection (not the size field itself)
+			}
+			break
+		}
 		call, ok := ast.Unparen(ret.Results[0]).(*ast.CallExpr)
 		if !ok || len(call.Args) != 0 {
 			break
@@ -1113,6 +1124,42 @@ func (m *Matcher) sizeFieldOwner(fr *frame, sel *ast.SelectorExpr) (string, bool
 	n, ok := t.(*types.Named)
 	if !ok {
 		return "", false
+	}
+	// a field kept equal to the length of a sibling field (p.Size = len(p.M) in the constructor)
+	if base, ok := m.X.canonF(fr, stripConv(fr.ctx, sel.X), 0); ok {
+		for _, fi := range m.X.P.Funcs {
+			if fi.Pkg.Types != n.Obj().Pkg() || fi.Decl.Body == nil {
+				continue
+			}
+			found := ""
+			ast.Inspect(fi.Decl.Body, func(k ast.Node) bool {
+				as, ok := k.(*ast.AssignStmt)
+				if !ok || len(as.Lhs) != 1 || len(as.Rhs) != 1 {
+					return true
+				}
+				ls, ok := as.Lhs[0].(*ast.SelectorExpr)
+				if !ok || ls.Sel.Name != sel.Sel.Name {
+					return true
+				}
+				if tv, ok := fi.Pkg.TypesInfo.Selections[ls]; !ok || tv.Obj() != s.Obj() {
+					return true
+				}
+				call, ok := ast.Unparen(as.Rhs[0]).(*ast.CallExpr)
+				if !ok || len(call.Args) != 1 {
+					return true
+				}
+				if id, ok := call.Fun.(*ast.Ident); !ok || id.Name != "len" {
+					return true
+				}
+				if rs, ok := ast.Unparen(call.Args[0]).(*ast.SelectorExpr); ok && types.ExprString(rs.X) == types.ExprString(ls.X) {
+					found = rs.Sel.Name
+				}
+				return true
+			})
+			if found != "" {
+				return base + "." + found, true
+			}
+		}
 	}
 	for _, name := range []string{"Size", "Len"} {
 		for _, fi := range m.X.P.MethodsOf(n) {
@@ -1188,6 +1235,13 @@ func (m *Matcher) loopKeyW(fr *frame, l *Loop) string {
 	case l.Bound != nil:
 		return m.sizeKey(fr, l.Bound)
 	case l.Range != nil:
+		if call, ok := stripConv(fr.ctx, l.Range).(*ast.CallExpr); ok && len(call.Args) == 0 {
+			if sel, ok := call.Fun.(*ast.SelectorExpr); ok {
+				if s, ok := m.collection(fr, sel.X, calleeOf(fr.ctx.Info, call), 0); ok {
+					return "size:" + s
+				}
+			}
+		}
 		if s, ok := m.X.canonF(fr, stripConv(fr.ctx, l.Range), 0); ok {
 			return "size:" + s
 		}
